@@ -62,6 +62,12 @@ def harnesses(tier):
                    unwind_auto=[10 * LXN, 16 * LXN, 25 * LXN, 40 * LXN], timeout=1500 if tier == 'quick' else 6000, mem_gb=10, functional=True,
                    bounds='every NUL-terminated buffer of 1..%d bytes (all byte values), scan() called until end of input' % LXN,
                    desc='lexer scan() (IR of the current lexer.c): tokens non-empty, contiguous, in order, inside [start, stop]'))
+    SP = 3 if tier == 'quick' else 4
+    hs.append(dict(name='c15_tokenize_lines', src='c15/toklines.c', defs=dict(SPAN=SP), pool_off=True,
+                   units=[dict(src='repo:mmd.c', remove=['mmd_assign_line_type']), 'repo:token.c', 'repo:object_pool.c', 'repo:stack.c', 'repo:char.c'],
+                   unwind=SP + 4, timeout=900 if tier == 'quick' else 3000, mem_gb=8, functional=True,
+                   bounds='range of 0..%d bytes at offset 0..2; any lexer behaviour inside the contract of c15_lexer_spans (token kinds, lengths 1..%d, skipped bytes), any line kinds, all extension words, stop_on_empty_line on/off' % (SP, SP),
+                   desc='mmd_tokenize_string over an abstract lexer/classifier: leaf tokens tile the requested range exactly, every line classified once and hung under the root, metadata gate set and closed as documented'))
     return hs
 
 CLAIM = dict(
